@@ -51,6 +51,7 @@ def run(ctx):
         if not rr["ok"]:
             rp = dict(scns[rr["id"]])
             rp["variant"] = rr["variant"]
+            rp["idx"] = rr["id"]
             ctx.violation(rr["sig"], rr["detail"], rp)
     ctx.exhaustive = True
     ctx.traces_validated = len(res)
